@@ -708,9 +708,11 @@ func c08BacktrackingMemoised(r *an.Run) {
 					case *ssa.Lookup:
 						if x.X == ssa.Value(memo) && b.Dominates(l.Header) {
 							// the lookup must decide an early failing return
-							for _, br := range an.BranchesOn(f, x) {
-								if an.ReturnsFailure(br.If.Block().Succs[br.EdgeWhen(true)]) {
-									consulted = true
+							for _, mv := range membershipValues(x) {
+								for _, br := range an.BranchesOn(f, mv) {
+									if an.ReturnsFailure(br.If.Block().Succs[br.EdgeWhen(true)]) {
+										consulted = true
+									}
 								}
 							}
 						}
@@ -737,10 +739,26 @@ func c08BacktrackingMemoised(r *an.Run) {
 // typedNilExceptions: functions that dereference such a pointer without a nil
 // test, with the invariant that makes the pointer non-nil.
 var typedNilExceptions = map[string]string{
-	"(*internal/engine.matcherCompiler).compileForStmt":  "pattern values of type *ast.ForStmt are only reached through the ast.Stmt interface, whose nil case is compiled by compileInterface before",
-	"(*internal/engine.replacerCompiler).compileForStmt": "replacerCompiler.compile returns a ZeroReplacer for nil pointers before dispatching",
-	"(*internal/engine.replacerCompiler).compileIdent":   "replacerCompiler.compile returns a ZeroReplacer for nil pointers before dispatching",
-	"(internal/engine.ImportReplacer).Replace":           "the name replacer is compiled from a non-nil *ast.Ident (imp.Name != nil is tested at compile time) and reproduces a non-nil identifier",
+	"matcherCompiler|*ast.ForStmt":  "pattern values of type *ast.ForStmt are only reached through the ast.Stmt interface, whose nil case is compiled by compileInterface before",
+	"replacerCompiler|*ast.ForStmt": "replacerCompiler.compile returns a ZeroReplacer for nil pointers before dispatching",
+	"replacerCompiler|*ast.Ident":   "replacerCompiler.compile returns a ZeroReplacer for nil pointers before dispatching",
+	"ImportReplacer|*ast.Ident":     "the name replacer is compiled from a non-nil *ast.Ident (imp.Name != nil is tested at compile time) and reproduces a non-nil identifier",
+}
+
+// typedNilKey names an exception by the receiver type of the method and the
+// asserted type (moving the code between methods of one type changes nothing).
+func typedNilKey(f *ssa.Function, asserted types.Type) string {
+	recv := ""
+	if f.Signature.Recv() != nil {
+		t := f.Signature.Recv().Type()
+		if p, ok := t.(*types.Pointer); ok {
+			t = p.Elem()
+		}
+		if n, ok := t.(*types.Named); ok {
+			recv = n.Obj().Name()
+		}
+	}
+	return recv + "|" + an.ShortType(asserted)
 }
 
 // c08TypedNil: optional fields of go/ast nodes are nil pointers; seen through
@@ -801,7 +819,7 @@ func c08TypedNil(r *an.Run) {
 						if guarded {
 							continue
 						}
-						if why, ok := typedNilExceptions[short(f)]; ok {
+						if why, ok := typedNilExceptions[typedNilKey(f, ta.AssertedType)]; ok {
 							r.Pass(key+"|exception", u.Pos(), "listed exception: %s", why)
 							continue
 						}
